@@ -4,7 +4,7 @@ import unicodedata
 
 from coqrun import tx
 from gen import prims, pyref
-from gen.util import ASCII_WS, lib_vs_model, rbytes, short
+from gen.util import ASCII_WS, UNICODE_WS, lib_vs_model, rbytes, short
 
 DRIVERS = ['C02']
 NEEDS = dict(cli=True, harness=True, shim=False, release=False)
@@ -75,6 +75,16 @@ def run(ctx):
         nc = unicodedata.normalize("NFKC", pw)
         for alt in {nf, nc} - {pw}:
             cases.append((canon, canon, alt, "nfkd-equivalent-partner", None))
+    # Unicode white space in the input phrase (separators or just padding): may be refused, but if the phrase is accepted the
+    # seed is that of the canonical single-space phrase
+    for L in LENS:
+        ws = [wl[i] for i in pyref.bip39_indices(rbytes(rng, LENS[L]))]
+        canon = " ".join(ws)
+        for u in ("\u3000", "\u2003", "\u00a0", "\u2028", "\u0085", "\u1680"):
+            cases.append((canon.replace(" ", u, 1), canon, "TREZOR", "unicode-layout(may)", None))
+            cases.append((u + canon, canon, "", "unicode-layout(may)", None))
+            cases.append((canon + u, canon, "x", "unicode-layout(may)", None))
+            cases.append((u.join(ws), canon, "", "unicode-layout(may)", None))
     for L in (12, 24):
         for ph in pyref.extreme_phrases(rng, wl, L):
             cases.append((ph, ph, rng.choice(["", "TREZOR", "é"]), "extreme-phrase-length/%d" % len(ph.encode()), None))
@@ -85,7 +95,9 @@ def run(ctx):
         case = dict(op="Mnemonic::seed", phrase=short(t, 100), passphrase=pw, passphrase_codepoints=[hex(ord(c)) for c in pw][:24], cls=cls)
         ctx.count(cls)
         ctx.distinct((t, pw))
-        lib_vs_model(ctx, "seed-vs-model", case, r, m)
+        lib_vs_model(ctx, "seed-vs-model", case, r, m, may_refuse=cls.endswith("(may)"))
+        if cls.endswith("(may)") and r.tag == "err":
+            continue
         if r.tag != "ok":
             ctx.violation("seed", case, "64-byte seed", str(r)[:200])
             continue
@@ -100,6 +112,16 @@ def run(ctx):
         by_key[key] = r.fields[0]
     ctx.sample(dict(op="Mnemonic::seed", phrase=cases[0][0], passphrase=cases[0][2], seed=impl[0].fields[0].hex() if impl[0].fields else None))
 
+    # CLI: the passphrase is used exactly as given (line terminators, blanks, tabs included), via flag and via PASSWORD
+    ph0 = cases[6][1]
+    pws = ["TREZOR\n", "TREZOR\r\n", "TREZOR\r", "\n", " TREZOR", "TREZOR ", "\tx\t", "a\nb", "\u3000x\u3000", "TREZOR"]
+    runs = [dict(args=["export", "--mnemonic", ph0, "--password=" + pw]) for pw in pws] + [dict(args=["export", "--mnemonic", ph0], env=dict(PASSWORD=pw)) for pw in pws]
+    for rn, r, pw in zip(runs, ctx.cli(runs), pws + pws):
+        ctx.count("cli/password-verbatim")
+        ctx.distinct(("clipw", pw, "env" in rn))
+        key = pyref.bip32_derive(pyref.bip39_seed(ph0, pw), [0x8000002C, 0x8000003C, 0x80000000, 0, 0])
+        if r.cls != "ok" or r.stdout.decode().strip() != "0x%064x" % key:
+            ctx.violation("cli-password-verbatim", dict(phrase=ph0, passphrase=pw, via="env" if rn.get("env") else "flag"), "0x%064x" % key, str(r)[:200])
     # CLI: --password reaches the seed (export differs with/without, equal for NFKD-equivalent spellings)
     ph = cases[5][1]
     res = ctx.cli([dict(args=["export", "--mnemonic", ph]), dict(args=["export", "--mnemonic", ph, "--password", "é"]),
